@@ -94,7 +94,7 @@ def join_everything_in_dependency_order(ctx):
                f'code on the {a} stage submits to the {b} stage: joining {b} first lets it receive work after its join')
 
 
-@rule('C18.c', ['C18'], floor=4)
+@rule('C18.c', ['C18'], floor=2)
 def per_transfer_state(ctx):
     """Objects created per transfer are not stored on the manager, a class or a module;
     only the frozen inventory of manager attributes is handed to tasks; no function of
@@ -147,6 +147,14 @@ def per_transfer_state(ctx):
                     g = ctx.p.resolve_name_expr(f.module, recv) if isinstance(recv, (ast.Name, ast.Attribute)) else None
                     if isinstance(g, tuple) and g[0] == 'const' and isinstance(g[2], (ast.List, ast.Dict, ast.Set)) and not (isinstance(recv, ast.Name) and (recv.id in f.params or q.local_defs(f, recv.id))):
                         ctx.ob(f, c, False, f'{d} is a module/class-level container: mutating it leaks state across transfers')
+
+
+@rule('C18.u', ['C18', 'C15'], floor=4)
+def callers_extra_args_are_not_mutated(ctx):
+    """An entry point whose transfer path writes into the extra_args dict (checksum
+    defaults, ChecksumType/ChecksumAlgorithm derivation) works on a copy: the caller's
+    dict - possibly reused for the next transfer - is never modified."""
+    mgr = ctx.cls('manager.TransferManager')
     # copy before mutate
     subm = ctx.cls('tasks.SubmissionTask')
     mutating = {}
